@@ -255,6 +255,12 @@ Section WStage.
     apply Qplus_comp; [reflexivity|]. apply Qsum_map_ext. intros t _.
     unfold dag_term, pair_term. rewrite pair_dep_SPw. reflexivity.
   Qed.
+  (* sigma[t] = 2 * (number of shortest src-t paths of the definition): the doubling quirk is uniform *)
+  Theorem sigma_counts_w : forall t, get 0 (bsig s) t == 2 * qn (length (spec_sp g src t)).
+  Proof.
+    intros t. rewrite (Permutation_length (spec_sp_perm_w t)). destruct st_sigma as [Hs1 Hs2].
+    exact (sigma_N n src (bP s) rkw Hsrc w_rk_src w_P_rk (bsig s) 2 Hs1 Hs2 t).
+  Qed.
 End WStage.
 
 (* ------------------------------------------------------------------ all sources, rescaling *)
@@ -319,3 +325,93 @@ Section WTotal.
     - intros i _. cbn [plus]. apply (HV i).
   Qed.
 End WTotal.
+
+(* ------------------------------------------------------------------ at the level of the graph state *)
+Lemma conv_row_true_int : forall r r', conv_row true r = Some r' -> forall e, In e r' -> exists c, snd e = inject_Z c.
+Proof.
+  induction r as [|a t IH]; intros r' H e He; cbn in H.
+  - inversion H. subst. destruct He.
+  - unfold conv_entry in H. destruct (snd a) as [z|]; [|discriminate].
+    destruct (conv_row true t) as [t'|]; [|discriminate]. inversion H. subst. destruct He as [He|He].
+    + subst e. exists z. reflexivity.
+    + eapply IH; eauto.
+Qed.
+
+Lemma conv_adj_true_int : forall sv a, conv_adj true sv = Some a -> forall v e, In e (get [] a v) -> exists c, snd e = inject_Z c.
+Proof.
+  induction sv as [|r t IH]; intros a H v e He; cbn in H.
+  - inversion H. subst. unfold get in He. destruct v; destruct He.
+  - destruct (conv_row true r) as [r'|] eqn:Er; [|discriminate].
+    destruct (conv_adj true t) as [t'|] eqn:Et; [|discriminate]. inversion H. subst.
+    unfold get in He. destruct v as [|v]; cbn [nth] in He.
+    + eapply conv_row_true_int; eauto.
+    + eapply (IH t' eq_refl v). exact He.
+Qed.
+
+Theorem rows_pos_sound : forall g, rows_pos g = true -> forall v e, In e (get [] g v) -> 0 < snd e.
+Proof.
+  intros g H v e He. unfold rows_pos in H. rewrite forallb_forall in H. unfold get in He.
+  destruct (Nat.lt_ge_cases v (length g)) as [L|G].
+  - specialize (H _ (nth_In g [] L)). rewrite forallb_forall in H. apply qlt_true. apply H. exact He.
+  - rewrite nth_overflow in He by exact G. destruct He.
+Qed.
+
+Lemma int_pos_cost : forall (g : qadj),
+  (forall v e, In e (get [] g v) -> exists c, snd e = inject_Z c) ->
+  (forall v e, In e (get [] g v) -> 0 < snd e) ->
+  forall v e, In e (get [] g v) -> exists c, snd e = inject_Z c /\ (0 < c)%Z.
+Proof.
+  intros g Hint Hpos v e He. destruct (Hint v e He) as [c Ec]. exists c. split; [exact Ec|].
+  pose proof (Hpos v e He) as X. rewrite Ec in X. change 0 with (inject_Z 0) in X. rewrite <- Zlt_Qlt in X. exact X.
+Qed.
+
+Section ModelW.
+  Context {T A : Type}.
+
+  (* weighted betweenness of the model = the definition on the adjacency it reads, for every tie
+     choice of the heap *)
+  Theorem model_weighted : forall lw (gs : gstate T A) normalized m,
+    betweenness_centrality lw gs true normalized = Ok m ->
+    exists a, conv_adj true (successors_vec gs) = Some a /\
+      (rows_nodup a = true -> rows_pos a = true ->
+       Forall2 Qeq (map snd m) (bc_def a normalized (directed (sp gs)))).
+  Proof.
+    intros lw gs normalized m H. unfold betweenness_centrality in H.
+    destruct (conv_adj true (successors_vec gs)) as [a|] eqn:Ea; [|discriminate].
+    exists a. split; [reflexivity|]. intros Hrn Hrp.
+    destruct (adj_ok (number_of_nodes gs) a) eqn:Hok; cbn [negb] in H; [|discriminate].
+    destruct (bc_core lw true a) as [bet|] eqn:Hb; [|discriminate].
+    apply name_values_snd in H. rewrite H.
+    assert (Hn : number_of_nodes gs = length a).
+    { unfold adj_ok in Hok. apply andb_true_iff in Hok. destruct Hok as [Hl _]. apply Nat.eqb_eq in Hl. lia. }
+    unfold get_all_nodes. change (length (nodes_vec gs)) with (number_of_nodes gs). rewrite Hn.
+    apply brandes_weighted with (lw := lw); auto.
+    - rewrite <- Hn. exact Hok.
+    - apply rows_nodup_sound. exact Hrn.
+    - apply int_pos_cost; [eapply conv_adj_true_int; exact Ea | apply rows_pos_sound; exact Hrp].
+  Qed.
+End ModelW.
+
+(* ------------------------------------------------------------------ non-vacuity of the hypotheses *)
+(* 0 reaches 3 first along the tied routes 0-1-3 and 0-2-3 (weight 3 each) and then along the
+   strictly shorter 0-4-3 (weight 2): the tentative count of node 3 must be reset; 3 -> 5 extends
+   it, node 6 is isolated.  Both tie choices of the heap. *)
+Example ex_wg : qadj :=
+  [[(1%nat, inject_Z 1); (2%nat, inject_Z 1); (4%nat, inject_Z 1)]; [(3%nat, inject_Z 2)]; [(3%nat, inject_Z 2)];
+   [(5%nat, inject_Z 1)]; [(3%nat, inject_Z 1)]; []; []].
+Example ex_weighted_hyps :
+  adj_ok (length ex_wg) ex_wg = true /\ rows_nodup ex_wg = true /\ rows_pos ex_wg = true /\
+  (forall v e, In e (get [] ex_wg v) -> exists c, snd e = inject_Z c /\ (0 < c)%Z) /\
+  (exists s, bdijkstra false ex_wg 0 = Some s /\ bS s = [0; 1; 2; 4; 3; 5]%nat /\ get 0 (bsig s) 3 == 2 /\ get [] (bP s) 3 = [4%nat]) /\
+  (exists bet, bc_core false true ex_wg = Some bet /\ get 0 bet 4%nat == 2 /\ get 0 bet 1%nat == 0) /\
+  (exists bet, bc_core true true ex_wg = Some bet /\ get 0 bet 4%nat == 2 /\ get 0 bet 1%nat == 0).
+Proof.
+  split; [reflexivity|]. split; [reflexivity|]. split; [reflexivity|]. split.
+  - intros v e H. unfold ex_wg, get in H.
+    do 7 (destruct v as [|v]; [cbn in H; repeat (destruct H as [H|H]; [subst e; eexists; split; [reflexivity | lia]|]); destruct H|]).
+    cbn in H. destruct v; destruct H.
+  - split; [|split].
+    + eexists. split; [vm_compute; reflexivity|]. repeat split.
+    + eexists. split; [vm_compute; reflexivity|]. split; reflexivity.
+    + eexists. split; [vm_compute; reflexivity|]. split; reflexivity.
+Qed.
